@@ -43,7 +43,7 @@ func subBulk(args []string) int {
 	a.thorough = a.tier == "thorough"
 	maxKeys := 400000
 	if a.thorough {
-		maxKeys = 150000
+		maxKeys = 60000
 	}
 	r := newRec("bulk/"+a.kind, a.dir, fmt.Sprintf("bulk-%s-%d", a.kind, a.shard), maxKeys)
 	switch a.kind {
@@ -249,16 +249,16 @@ func bulkUA(r *rec, a bulkArgs) {
 	}
 	var infos []inf
 	rng := rngFor(a.seed, "c19/ua/sample")
-	keep := 3
+	keep := 3 // quick: every curve/point edit + 1/12 of the other list edits
 	if a.thorough {
-		keep = 1
+		keep = 0 // all
 	}
 	for _, base := range bases {
 		infos = append(infos, inf{base, "identity"})
 		if m, ok := parseModel(base); ok {
 			structural(m, func(mu mutant) {
 				// everything touching the curve list is kept; the rest is sampled
-				if strings.HasPrefix(mu.class, "curves/") || strings.HasPrefix(mu.class, "points/") || rng.Intn(keep*4) == 0 {
+				if strings.HasPrefix(mu.class, "curves/") || strings.HasPrefix(mu.class, "points/") || keep == 0 || rng.Intn(keep*4) == 0 {
 					infos = append(infos, inf{mu.b, mu.class})
 				}
 			})
@@ -268,6 +268,14 @@ func bulkUA(r *rec, a bulkArgs) {
 	hellos := map[string][]byte{}
 	addr := func(i int) string { return fmt.Sprintf("10.%d.%d.%d:%d", i>>16&255, i>>8&255, i&255, 1024+i%60000) }
 	for i, in := range infos {
+		// the handler under test is built from parsed infos: a hello the
+		// parser itself cannot digest is reported here and left out
+		r.journal("ua-setup parse class="+in.class, in.b)
+		if p, val, stack := guard(func() { httpserver.VerifParseClientHello(in.b) }); p {
+			r.violation(panicKey(stack), "ClientHello bytes make the parser panic: "+val,
+				map[string]interface{}{"entry": "parseRawClientHello", "hello_hex": hx(in.b), "mutation": in.class, "panic": val, "stack": trimStack(stack)})
+			continue
+		}
 		hellos[addr(i)] = in.b
 	}
 	var checked, mitm, reached int64
